@@ -113,7 +113,7 @@ def future_ends_run(f: FutureT) -> Bool:
 OrchSelfT = Rec("Orchestrator", cls=O + "Orchestrator")
 
 
-@contract(O + "Orchestrator._extract_violations_from_future", no_selftest=True, props=["C07"],
+@contract(O + "Orchestrator._extract_violations_from_future", no_selftest=True, props=["C07", "C06"],
           types=dict(self=OrchSelfT, future=FutureT), returns=Violations, raises=["ValueError"])
 class ExtractViolationsFromFuture:
     def reveals(future):
@@ -134,7 +134,7 @@ def collect(fs: SeqOf(FutureT)) -> Violations:
     return future_violations(fs[0]) + collect(fs[1:])
 
 
-@contract(O + "Orchestrator._collect_parallel_results", no_selftest=True, props=["C07"],
+@contract(O + "Orchestrator._collect_parallel_results", no_selftest=True, props=["C07", "C06"],
           types=dict(self=OrchSelfT, futures=SeqOf(FutureT), future=FutureT, violations=Violations), returns=Violations,
           raises=["ValueError"])
 class CollectParallelResults:
@@ -311,13 +311,16 @@ class LintFilesParallel:
                        + fin_all(rules_of(ready(old.self.registry.gs, old.self._rules_discovered))))
 
 
-@contract(O + "Orchestrator.lint_directory_parallel", no_selftest=True, props=["C07"],
+@contract(O + "Orchestrator.lint_directory_parallel", no_selftest=True, props=["C07", "C06", "C14", "C10"],
           types=dict(self=OrchT, dir_path=PathT, recursive=Bool, max_workers=Opt(Int)),
           returns=Viols, raises=["ValueError", "OSError"],
           modifies=["self.registry.gs", "self._rules_discovered", "self.ignore_parser._ignore_cache"])
 class LintDirectoryParallel:
     def requires(max_workers):
         return max_workers is None or max_workers >= 0
+
+    def ensures_empty_directory(dir_path, recursive, result):
+        return implies(len(walk_files(dir_path, recursive)) == 0, len(result) == 0)
 
     def ensures_small_directories_run_sequentially(self, dir_path, recursive, max_workers, result, old):
         return implies(len(walk_files(dir_path, recursive)) > 0 and not goes_parallel(walk_files(dir_path, recursive), max_workers),
@@ -430,7 +433,7 @@ def fresh_lint(file_path, root, config):
                   parser_for(root).project_root, parser_for(root).repo_patterns)
 
 
-@contract(O + "_lint_file_worker", no_selftest=True, props=["C07"],
+@contract(O + "_lint_file_worker", no_selftest=True, props=["C07", "C06"],
           types=dict(args=TupleOf(PathT, PathT, Dict), orchestrator=OrchT, violations=Violations), returns=SeqOf(ViolDictT),
           raises=["ValueError"])
 class LintFileWorker:
@@ -556,6 +559,40 @@ try:
                     bad.append({"workers": workers, "order": [p.name for p in fs], "config": cfg, "sequential": len(seq), "parallel": len(par),
                                 "only_sequential": [Path(json.loads(x)["file_path"]).name + ":" + json.loads(x)["rule_id"] for x in seq if x not in par][:5],
                                 "only_parallel": [Path(json.loads(x)["file_path"]).name + ":" + json.loads(x)["rule_id"] for x in par if x not in seq][:5]})
+    # directories: "for any set of files and directories" -- a tree with files at the top level and in sub-directories,
+    # linted recursively and with --no-recursive, through the Orchestrator entry points (with a real pool: 1 worker) and
+    # through the CLI's execute_linting_on_paths (as every command calls it)
+    from src.cli.utils import execute_linting_on_paths
+    tree = tmp / "tree"
+    (tree / "sub" / "deeper").mkdir(parents=True)
+    for k, d in enumerate([tree, tree, tree, tree / "sub", tree / "sub", tree / "sub" / "deeper"]):
+        (d / f"leaf_{k}.py").write_text(f"def leaf_{k}(v):\n    return v * {5000 + 13 * k} + {6000 + k}\n", encoding="utf-8")
+    for recursive in (True, False):
+        seq = sorted(key(v) for v in orchestrator(tmp, {}).lint_directory(tree, recursive=recursive)
+                     if not v.rule_id.startswith(("dry.", "stringly-typed")))
+        variants = {
+            "lint_directory_parallel(max_workers=1)": lambda: orchestrator(tmp, {}).lint_directory_parallel(tree, recursive=recursive, max_workers=1),
+            "lint_directory_parallel()": lambda: orchestrator(tmp, {}).lint_directory_parallel(tree, recursive=recursive),
+            "execute_linting_on_paths(parallel=True)": lambda: execute_linting_on_paths(orchestrator(tmp, {}), [tree], recursive, True),
+            "execute_linting_on_paths(parallel=False)": lambda: execute_linting_on_paths(orchestrator(tmp, {}), [tree], recursive, False),
+        }
+        for label, fn in variants.items():
+            par = sorted(key(v) for v in fn() if not v.rule_id.startswith(("dry.", "stringly-typed")))
+            cases.append([label, recursive, len(seq)])
+            if seq != par:
+                bad.append({"entry": label, "recursive": recursive, "sequential": len(seq), "other": len(par),
+                            "only_other": sorted({Path(json.loads(x)["file_path"]).name for x in par if x not in seq})[:6],
+                            "only_sequential": sorted({Path(json.loads(x)["file_path"]).name for x in seq if x not in par})[:6]})
+    # reuse: ONE orchestrator object, a second run after a file was edited (library use / long-lived process)
+    ro_seq, ro_par = orchestrator(tmp, {}), orchestrator(tmp, {})
+    fs = files[:4]
+    for round_no in (1, 2):
+        seq = sorted(key(v) for v in ro_seq.lint_files(list(fs)) if not v.rule_id.startswith(("dry.", "stringly-typed")))
+        par = sorted(key(v) for v in ro_par.lint_files_parallel(list(fs), max_workers=2) if not v.rule_id.startswith(("dry.", "stringly-typed")))
+        cases.append(["reuse", round_no, len(seq)])
+        if seq != par:
+            bad.append({"scenario": f"same orchestrator, run {round_no}", "sequential": len(seq), "parallel": len(par)})
+        fs[0].write_text(fs[0].read_text(encoding="utf-8") + "\n\ndef added_later(v):\n    return v * 9091 + 9092\n", encoding="utf-8")
     # "... and the same exit code": a run that the sequential mode cannot perform (a linter rejects its configuration:
     # one invalid value per linter family, taken from the documented constraints) must end the same way in parallel
     def outcome(fn):
@@ -600,7 +637,9 @@ def c07_pool_bounded(ctx):
     to past 3 x workers -- multiples and non-multiples of the worker count -- and compares the multisets of violations
     (every field). Cross-file rules are excluded (known finding C07-parallel-cross-file). A second project is
     multi-language (Python / TypeScript / JavaScript / Rust files around the nesting and class-size limits) and is linted
-    under configurations with per-language override sections, in three file orders. It also compares the OUTCOME
+    under configurations with per-language override sections, in three file orders. A directory tree is linted
+    recursively and with --no-recursive through lint_directory_parallel and through the CLI's execute_linting_on_paths
+    (parallel and not) against lint_directory with the same flag. It also compares the OUTCOME
     (violations, or the class and message of the error that ends the run) for 14 configurations with one invalid value
     per linter family: a run the sequential mode refuses must be refused identically by the pool."""
     import json
